@@ -127,6 +127,7 @@ class U3(Universe):
                     o.append(IterEdit(l, k, 'remove+update', (('_a', 'V3'),), 'close'))
                     o.append(IterEdit(l, k, 'remove+remove', (), 'close'))
                     o.append(IterEdit(l, k, 'update', (('_a', 'V3'),), 'close'))
+                    o.append(IterEdit(l, k, 'update+second', (('_a', 'V2'),), 'close'))
                     o.append(IterEdit(l, k, 'update', (('_c', 'NA'),), 'close'))
                     o.append(IterEdit(l, k, 'update', (('_s', 'V2'), ('_zz', 'V1')), 'close'))
                 if n == 0:
